@@ -373,8 +373,8 @@ def loose_same(a, b, U):
     reg = U.any_reg(type(a))
     if reg is not None:
         fa, fb = reg.flatten(a), reg.flatten(b)
-        return fa[1] == fb[1] and len(list(fa[0])) == len(list(fb[0])) and all(
-            x is y or loose_same(x, y, U) for x, y in zip(fa[0], fb[0]))
+        ca, cb = list(fa[0]), list(fb[0])  # children may be a one-shot iterator
+        return fa[1] == fb[1] and len(ca) == len(cb) and all(x is y or loose_same(x, y, U) for x, y in zip(ca, cb))
     return False
 
 
